@@ -1149,6 +1149,8 @@ class Unit:
         self._log("E3", src, n["span"][0], "join!(f1, f2)", "demonic choice between both orders of the two calls")
         return eds
 
+    CANCEL_SAFE = {"recv", "sleep", "next", "changed", "notified", "tick", "accept"}
+
     def _select_edits(self, src, n):
         """E3: tokio::select! { p = fut => body, ... }  ==>
         if nondet() { let p = fut; body } else if nondet() {...} else {...}"""
@@ -1156,6 +1158,15 @@ class Unit:
         arms = n["arms"]
         s0 = n["span"][0]
         cur = s0
+        # E3 models every branch future as ONE atomic step that either completes or has no effect.
+        # That is only sound for cancellation-safe futures, so each future must be a single call of
+        # a function from this list (tokio documents them as cancel safe); anything else -- an
+        # `async {}` block, a local async fn with several awaits, a chain of awaits -- is undecided.
+        for a in arms:
+            ft = src.text(*a["fut"]).strip()
+            m_ = re.match(r"^(?:[\w:]+::)?(\w+)\s*\(.*\)$", ft, re.S) or re.match(r"^[\w\.\s]+\.(\w+)\s*\(.*\)$", ft, re.S)
+            if not m_ or m_.group(1) not in self.CANCEL_SAFE or ".await" in ft:
+                raise Undecided(f"E3: select! branch future `{ft[:60]}` is not a single call of a cancellation-safe function ({', '.join(sorted(self.CANCEL_SAFE))}): dropping it part-way is not modelled")
         for i, a in enumerate(arms):
             last = i == len(arms) - 1
             head = ("" if i == 0 else " else ") + ("" if last else "if nondet() ") + "{ let "
